@@ -2984,8 +2984,9 @@ def library_entry_wiring(a):
                  "reset_recorder": lambda ex, av: ex.opq(), "extract": lambda ex, av: ex.opq(), "report_eval": mirexec.m_result_unit,
                  "to_string_pretty": m_result_opq, "from_utf8": m_result_opq, RC_NEW: mirexec.m_identity, "clone": mirexec.m_identity,
                  "from": lambda ex, av: ex.opq(), "to_owned": mirexec.m_identity, "to_string": mirexec.m_identity,
-                 "to_vec": lambda ex, av: ex.opq(), "buffer": lambda ex, av: ex.opq(), "empty": lambda ex, av: ex.opq()},
-                log=("new",), unroll=1, max_paths=20000)
+                 "to_vec": mirexec.m_identity, "buffer": lambda ex, av: ex.opq(), "empty": lambda ex, av: ex.opq(), "into_inner": m_result_opq,
+                 "get_ref": lambda ex, av: ex.opq(), "flush": mirexec.m_result_unit, "unwrap": lambda ex, av: (av[0][3].get("Ok") or ex.opq()) if av and av[0][0] == "enum" else ex.opq()},
+                log=("new", "buffer", "into_inner", "get_ref", "flush"), unroll=1, max_paths=20000)
     a.enums = saved
     a.fns.append("commands::helper::validate_and_return_json (library / Lambda / FFI entry)")
     bad, nev = [], 0
@@ -3024,6 +3025,31 @@ def library_entry_wiring(a):
         elif reps:
             probs.append("a report without an evaluation")
         bad.append(f"(and {pc_term(p.pc)} {'true' if probs else 'false'})")
+    # what is handed back: ALL the bytes the reporter wrote. The writer is a BufWriter over a Vec: `buffer()` is only the not-yet-flushed
+    # tail (at most its 8 KiB capacity); the complete text is `into_inner()` (which flushes) or the inner Vec after `flush()`
+    bad2, nret = [], 0
+    for p in ex.paths:
+        reps = calls(p, "report_eval")
+        if not reps or p.outcome != "return":
+            continue
+        fu = calls(p, "from_utf8")
+        if not fu:
+            continue                              # the reporter failed: the error is returned
+        nret += 1
+        w = reps[0][2][1] if len(reps[0][2]) > 1 else None
+        inner = [e for e in calls(p, "into_inner") if e[3][0] == "enum"]
+        whole = [e[3][3]["Ok"] for e in inner] + ([e[3] for e in calls(p, "get_ref")] if calls(p, "flush") else [])
+        src_ok = any(same(fu[0][2][0], x) for x in whole) and not calls(p, "buffer")
+        # reaching from_utf8 means into_inner succeeded (its error is returned before)
+        bad2.append("false" if src_ok else pc_term(p.pc))
+    c2 = a.discharge("library-entry/returns-everything-written", ex, bad2,
+                     f"validate_and_return_json ({nret} paths that return a report): the text returned is the writer's COMPLETE contents (into_inner(), or the "
+                     "inner buffer after flush()), never BufWriter::buffer(), which holds only the tail that was not flushed yet - a report larger than "
+                     "the writer's 8 KiB capacity would come back truncated", witness=False)
+    if c2:
+        c2["replay"] = replay_library(a)
+        c2["reproduced"] = c2["replay"].get("reproduced", False)
+        a.candidates.append(c2)
     c = a.discharge("library-entry/same-pair-same-report", ex, bad,
                     f"validate_and_return_json ({nev} evaluating paths): the parsed rules and the converted data document are evaluated once, in "
                     "a scope built from exactly them; the JSON report is rendered by the generic reporter from that evaluation's status and "
@@ -3057,7 +3083,9 @@ def replay_library(a):
         return {"reproduced": False, "note": "native build failed"}
     cases = {"mixed": "rule p1 {\n  a == 1\n}\nrule f1 {\n  a == 2\n}\nrule s1 when a == 2 {\n  a == 1\n}\n",
              "allpass": "rule p1 {\n  a == 1\n}\nrule s1 when a == 2 {\n  a == 1\n}\n",
-             "allskip": "rule s1 when a == 2 {\n  a == 1\n}\n"}
+             "allskip": "rule s1 when a == 2 {\n  a == 1\n}\n",
+             # a report larger than a BufWriter's 8 KiB: the library must return all of it
+             "big": "".join(f"rule f{i} {{\n  a == {i + 2} <<value number {i} is not what this rule wants to see here>>\n}}\n" for i in range(40))}
     tfile = os.path.join(a.src, "guard", "tests", "zz_verif_lib.rs")
     body = LIB_TEST.replace("__CASES__", ", ".join('("%s", %s)' % (k, json.dumps(v)) for k, v in cases.items()))
     env = dict(os.environ)
